@@ -1,2 +1,59 @@
-(* ext.ml - further model commands (session, accept loop, ...) are added here *)
-let handle (cmd : string) (_rest : string) : string = "unknown-command " ^ cmd
+(* ext.ml - model commands beyond the codec: session, ... (parsing / printing glue) *)
+open Model
+open Common
+
+let z_of_int i = if i = 0 then Z0 else if i > 0 then Zpos (pos_of_int i) else Zneg (pos_of_int (-i))
+
+(* cfg text: rt=0 wt=1 sa=none|ok|fail ra=0|1 ops=1,a,1e sv=1.4,1.3 sid=<hex> st=<hex> now=<hexz> *)
+let parse_cfg (s : string) : cfg =
+  let kv = List.map (fun t -> split1 (String.map (fun c -> if c = '=' then ' ' else c) t)) (split_on ' ' s) in
+  let get k d = try List.assoc k kv with Not_found -> d in
+  { c_read_to = get "rt" "0" = "1";
+    c_write_to = get "wt" "0" = "1";
+    c_sess_auth = (match get "sa" "none" with "ok" -> Some true | "fail" -> Some false | _ -> None);
+    c_req_auth = get "ra" "0" = "1";
+    c_ops = List.map n_of_hex (split_on ',' (get "ops" ""));
+    c_supported =
+      List.map
+        (fun p -> match String.split_on_char '.' p with
+           | [a; b] -> (z_of_int (int_of_string a), z_of_int (int_of_string b))
+           | _ -> failwith "version")
+        (split_on ',' (get "sv" ""));
+    c_sid = bytes_of_hex (get "sid" "_");
+    c_sauth = bytes_of_hex (get "st" "_");
+    c_now = z_of_hex (get "now" "0") }
+
+(* script text: comma separated  S:<val with spaces replaced by ~>  F:<hex>  R:<hex>:<reason hex>  P:<hex> *)
+let parse_behaviour (s : string) : behaviour =
+  match String.split_on_char ':' s with
+  | "S" :: rest -> BSuccess (val_of_string (String.map (fun c -> if c = '~' then ' ' else c) (String.concat ":" rest)))
+  | [ "F"; m ] -> BFail (bytes_of_hex m)
+  | [ "R"; m; r ] -> BFailReason (bytes_of_hex m, n_of_hex r)
+  | [ "P"; m ] -> BPanic (bytes_of_hex m)
+  | _ -> failwith ("behaviour " ^ s)
+
+let show_event (e : event) : string =
+  match e with
+  | EArmRead -> "armr"
+  | EArmWrite -> "armw"
+  | ESessAuth ok -> if ok then "sa:ok" else "sa:fail"
+  | EReqAuth (creds, ok) -> "ra:" ^ show_val creds ^ (if ok then ":ok" else ":fail")
+  | ECall (sid, sa, ra, op, payload) ->
+      Printf.sprintf "call:%s:%s:%s:%s:%s" (hex_of_bytes sid) (hex_of_bytes sa)
+        (match ra with Some b -> hex_of_bytes b | None -> "nil") (hex_of_n op) (show_val payload)
+  | EWrote b -> "wrote:" ^ hex_of_bytes b
+  | EEncodeFailed -> "encfail"
+  | EClose _ -> "close"
+  | EOutOfFuel -> "fuel"
+
+let handle (cmd : string) (rest : string) : string =
+  match cmd with
+  | "session" ->
+      (match String.split_on_char '|' rest with
+       | [ c; sc; inp ] ->
+           let c = parse_cfg (String.trim c) in
+           let script = List.map parse_behaviour (split_on ',' (String.trim sc)) in
+           let evs = inst_session c (bytes_of_hex (String.trim inp)) script in
+           String.concat " ; " (List.map show_event (List.filter (fun e -> e <> EEncodeFailed) evs))
+       | _ -> "driver-error session syntax")
+  | _ -> "unknown-command " ^ cmd
